@@ -4,12 +4,14 @@ import (
 	"bufio"
 	"bytes"
 	"fmt"
+	"go/constant"
 	"go/token"
 	"go/types"
 	"os"
 	"os/exec"
 	"path/filepath"
 	"regexp"
+	"rjverif/internal/linarith"
 	"sort"
 	"strconv"
 	"strings"
@@ -191,10 +193,11 @@ func (x *Ctx) capacityGuarded(ms *ssa.MakeSlice, fcallLines map[string]bool) (bo
 			return isParam
 		}
 		var insufficient *ssa.BasicBlock
+		// only the strict forms: `cap > size` / `cap <= size` would also allocate when the capacity is exactly enough
 		switch {
-		case capCall(be.X) && (be.Op == token.GEQ || be.Op == token.GTR):
+		case capCall(be.X) && be.Op == token.GEQ, capCall(be.Y) && be.Op == token.LEQ:
 			insufficient = dom.Succs[1]
-		case capCall(be.X) && (be.Op == token.LSS || be.Op == token.LEQ):
+		case capCall(be.X) && be.Op == token.LSS, capCall(be.Y) && be.Op == token.GTR:
 			insufficient = dom.Succs[0]
 		}
 		if insufficient != nil && (insufficient == ms.Block() || insufficient.Dominates(ms.Block())) {
@@ -511,6 +514,9 @@ func C19(x *Ctx, r *core.Result) {
 		return true
 	})
 	r.CheckFloor(e19, 6)
+	f19 := r.Rule("R19f", "a reachable call of the growth helper asks for no more than the promised spare capacity covers: the destination's length plus the length of an input parameter, or plus a constant no larger than the input bytes the caller consumes on each of its successful returns (asking for more would allocate although the destination has spare capacity of the input length)")
+	x.growthRequests(r, f19, fns)
+	r.CheckFloor(f19, 1)
 	d := r.Rule("R19d", "the grown stack is stored back into the Buffer by every wrapper (otherwise a warmed buffer would not stay warm)")
 	x.wrapperSymmetryOpt(r, d, true, bufferWrappers...)
 	r.CheckFloor(d, 5)
@@ -525,8 +531,105 @@ func C19(x *Ctx, r *core.Result) {
 
 func init() { Registry["C19"] = Prop{"other", C19} }
 
-var _ = types.Identical
+// growthRequests: R19f.
+func (x *Ctx) growthRequests(r *core.Result, rs *core.RuleStat, fns []*ssa.Function) {
+	h := x.Func("growBytesSliceCapacity")
+	if h == nil {
+		return // nothing grows a destination ahead of time: append sites are judged by R19a/b
+	}
+	di, si := -1, -1
+	for i, p := range h.Params {
+		if isByteSliceT(p.Type()) {
+			di = i
+		} else if isIntKind(p.Type()) {
+			si = i
+		}
+	}
+	if di < 0 || si < 0 {
+		r.Undecided(rs, "helper", x.W.Pos(h.Pos()), "the growth helper does not take a destination and a size")
+		return
+	}
+	for _, fn := range fns {
+		for _, b := range fn.Blocks {
+			for _, ins := range b.Instrs {
+				c, ok := ins.(*ssa.Call)
+				if !ok || c.Call.StaticCallee() != h {
+					continue
+				}
+				rs.Instances++
+				key := fnKey(fn) + ":request"
+				dst, size := c.Call.Args[di], c.Call.Args[si]
+				bp := x.newBoundsProver(fn, 0)
+				bp.site = c
+				bp.pathFacts(b)
+				sf, ok1 := bp.intForm(size)
+				dl, ok2 := bp.lenForm(dst)
+				if !ok1 || !ok2 {
+					r.Undecided(rs, key, x.W.Pos(c.Pos()), "size or destination of the growth request not understood")
+					continue
+				}
+				why := ""
+				for _, p := range fn.Params {
+					if p == dst || !isByteSliceT(p.Type()) {
+						continue
+					}
+					pl, _ := bp.lenForm(p)
+					if bp.proveSplit(0, linarith.LE(sf, dl.Add(pl))) {
+						why = "at most len(destination) + len(" + p.Name() + ")"
+						break
+					}
+				}
+				if why == "" {
+					// constant request covered by the input bytes consumed on every successful return
+					minUsed := int64(-1)
+					for _, blk := range fn.Blocks {
+						ret, ok := blk.Instrs[len(blk.Instrs)-1].(*ssa.Return)
+						if !ok {
+							continue
+						}
+						failing := false
+						used := int64(-1)
+						for _, o := range ret.Results {
+							if cb, ok := o.(*ssa.Const); ok && cb.Value != nil && cb.Value.Kind() == constant.Bool && !constant.BoolVal(cb.Value) {
+								failing = true
+							}
+							if isErrT(o.Type()) && !isNilConst(o) {
+								failing = true
+							}
+							if isIntKind(o.Type()) {
+								if k, ok := constBig(o); ok && k.IsInt64() {
+									used = k.Int64()
+								} else {
+									used = 0
+								}
+							}
+						}
+						if failing {
+							continue
+						}
+						if used < 0 {
+							used = 0
+						}
+						if minUsed < 0 || used < minUsed {
+							minUsed = used
+						}
+					}
+					if minUsed > 0 && bp.proveSplit(0, linarith.LE(sf, dl.Add(linarith.Const(minUsed)))) {
+						why = fmt.Sprintf("at most len(destination) + %d, and every successful return consumes at least %d input bytes", minUsed, minUsed)
+					}
+				}
+				if why == "" {
+					r.Fail(rs, key, x.W.Pos(c.Pos()), "the growth request is not bounded by len(destination) + len(input) (nor by the input bytes consumed): it can exceed a spare capacity of the input length and allocate on a successful call")
+				} else {
+					rs.OK(1)
+					rs.Sample(fnKey(fn) + ": " + why)
+				}
+			}
+		}
+	}
+}
 
+var _ = types.Identical
 
 // carriesFrom: on every way from block cb (where the non-nil error v is made) to the use of o, o is v or another
 // known non-nil error: o is v, or a phi whose edges from predecessors reachable from cb all carry such a value.
@@ -552,7 +655,6 @@ func (x *Ctx) carriesFrom(o, v ssa.Value, cb *ssa.BasicBlock, seen map[ssa.Value
 	}
 	return n > 0
 }
-
 
 // decodeNullPath: R19e. The reader's flat model (E2 + E1) is walked on the bytes ws* n u l l; every failing exit met
 // must carry an error that is a plain package-level variable.
@@ -666,7 +768,6 @@ func (x *Ctx) decodeNullPath(r *core.Result, rs *core.RuleStat, noAlloc func(*ss
 		}
 	}
 }
-
 
 func isPlainSentinel(name string) bool {
 	return name != "" && name != "err variable" && !strings.ContainsAny(name, "( .") && !strings.HasPrefix(name, "undecided")
